@@ -101,9 +101,9 @@ Walk(i, pend, D) ==
 (* C08: what the stream did must not depend on how it was cut (ref = the byte-at-a-time execution);  *)
 (* C09: what message B did after message A must equal what B does on a fresh context (ref = B alone). *)
 RECURSIVE CatObs(_)
-CatObs(calls) == IF calls = <<>> THEN [log |-> <<>>, out |-> <<>>, errs |-> <<>>, flush |-> 0]
+CatObs(calls) == IF calls = <<>> THEN [log |-> <<>>, out |-> <<>>, errs |-> <<>>, flush |-> 0, e113 |-> <<>>]
                  ELSE LET r == CatObs(Tail(calls)) c == Head(calls) IN
-                      [log |-> c.log \o r.log, out |-> c.out \o r.out, errs |-> c.errs \o r.errs, flush |-> c.flush + r.flush]
+                      [log |-> c.log \o r.log, out |-> c.out \o r.out, errs |-> c.errs \o r.errs, flush |-> c.flush + r.flush, e113 |-> c.e113 \o r.e113]
 LastPos(calls) == IF calls = <<>> THEN 0 ELSE calls[Len(calls)].pos
 CrossDiff ==
   IF Rec.ref = <<>> THEN {}
